@@ -431,6 +431,7 @@ func runC12(c *an.Ctx) {
 	c12Remote(c)
 	c12Baton(c, fns)
 	ruleK7(c)
+	ruleK8(c)
 }
 
 // loadBefore reports whether the field load v happens before the store st on
